@@ -32,7 +32,8 @@ RULE = (
     "likewise; logic circuits: all formulas of depth <= 3 over <= 3 variables from {literal, negated literal, top, bottom, decision "
     "node, decomposable and (arity 2, 3)}, built directly and through a generated SDD file, plus deterministic disjunctions nested "
     "directly under a disjunction / with literal children and multi-element SDD decisions whose primes are decisions (2 or 3 "
-    "elements, subs in {top, bottom, literal}); each under (fold, optimize) x admissible "
+    "elements, subs in {top, bottom, literal}) and 4-variable DAGs in which a conjunction is shared by two disjunctions of "
+    "different scope (nodes listed children-first and parents-first); each under (fold, optimize) x admissible "
     "semirings; oracle: factor tensors read back from the symbolic parameters and contracted with np.einsum at EVERY index tuple; "
     "explicit summation over latent chains; per-variable layer type / arguments by variable id; truth table and model count. "
     "Non-trivial: >= 2 index tuples / assignments compared"
@@ -160,11 +161,20 @@ def _ordered_partitions(vars_, k):
     return res
 
 
-def formula_to_graph(f):
-    """Build a LogicalCircuit directly from the AST (shared literal nodes)."""
-    nodes, in_nodes, lits = [], {}, {}
+def formula_to_graph(f, share=False, order="post"):
+    """Build a LogicalCircuit directly from the AST (shared literal nodes). share=True: syntactically equal sub-formulas
+    become ONE node with several parents (a DAG); order='rev': the inner nodes are listed parents-first."""
+    nodes, in_nodes, lits, memo = [], {}, {}, {}
 
     def rec(g):
+        if share and g[0] in ("and", "or", "dec"):
+            k = repr(g)
+            if k not in memo:
+                memo[k] = rec_(g)
+            return memo[k]
+        return rec_(g)
+
+    def rec_(g):
         t = g[0]
         if t in ("lit", "neg"):
             key = (t, g[1])
@@ -191,7 +201,27 @@ def formula_to_graph(f):
         return c
 
     root = rec(f)
+    if order == "rev":
+        leaves = [n for n in nodes if n not in in_nodes]
+        nodes = leaves + [n for n in reversed(nodes) if n in in_nodes]
     return LogicalCircuit(nodes, in_nodes, [root])
+
+
+def shared_dags(vars_):
+    """Deterministic decomposable formulas in which one conjunction C is an input of two disjunctions of DIFFERENT scope."""
+    out = []
+    for a, b, u, s_ in itertools.permutations(vars_, 4):
+        if a > b:
+            continue
+        C = ("and", [("lit", a), ("lit", b)])
+        for sb1 in ("lit", "neg"):
+            for su in ("lit", "neg"):
+                for sb2 in ("lit", "neg"):
+                    big = ("or", [C, ("and", [("neg", a), (sb1, b), (su, u)])])
+                    small = ("or", [C, ("and", [("neg", a), (sb2, b)])])
+                    out.append(("dec", s_, big, small))
+                    out.append(("dec", s_, small, big))
+    return out
 
 
 def formula_to_sdd_text(f):
@@ -293,6 +323,10 @@ def cases(tier, seed):
             if k not in seen:
                 seen.add(k)
                 yield {"kind": "logic", "formula": f, "via": "graph"}
+        if nv == 3:
+            for f in shared_dags((0, 1, 2, 3)):
+                for order in ("post", "rev"):
+                    yield {"kind": "logic", "formula": f, "via": "graph", "share": True, "order": order}
         for f in sdd_partitions(tuple(range(nv))):
             k = repr(f)
             if k not in seen:
@@ -530,7 +564,7 @@ def run_logic(case, seed, viols, counters):
                 os.remove(path)
                 os.rmdir(d)
         else:
-            g = formula_to_graph(f)
+            g = formula_to_graph(f, share=bool(case.get("share")), order=case.get("order", "post"))
         sc = g.build_circuit()
     except Exception as e:
         models = sum(1 for x in itertools.product([0, 1], repeat=3) if feval(f, x))
